@@ -8,7 +8,7 @@ import copy
 import json
 import random
 
-from typedpy import Deserializer, Serializer, serialize
+from typedpy import Deserializer, Serializer, serialize, deserialize_structure, serialize_field
 from typedpy.structures import TypedPyDefaults
 
 from .. import dump, gen
@@ -440,6 +440,19 @@ def run_impl(case):
                     res["ser_fn_same"] = serialize(x) == doc
                 except Exception:
                     res["ser_fn_same"] = False
+                # the public field-level API: serialize_field(Class.field, value) is that field's part of the document
+                try:
+                    diffs = []
+                    for fname in cls.get_all_fields_by_name():
+                        fv = getattr(x, fname, None)
+                        if fv is None or fname not in doc:
+                            continue
+                        part = serialize_field(getattr(cls, fname), fv)
+                        if dump.canon(dump.dump_value(part, ctx)) != dump.canon(dump.dump_value(doc[fname], ctx)):
+                            diffs.append(fname)
+                    res["ser_field_diffs"] = diffs
+                except Exception as e:
+                    res["ser_field_diffs"] = f"{type(e).__name__}: {e}"[:200]
                 # the alias probe pokes the returned document: on a separate, fresh instance, so that a live
                 # document cannot corrupt the instance the round trip below starts from
                 try:
@@ -486,6 +499,12 @@ def run_impl(case):
                 res["deser"] = {"ok": C.rename_inline(dump.dump_value(y, ctx), ctx)}
             except Exception as e:
                 res["deser"] = {"err": C.err_name(e), "msg": str(e)[:200]}
+            # the function API with the flag the wrapper computes: same verdict, equal instance
+            try:
+                y2 = deserialize_structure(cls, copy.deepcopy(doc), keep_undefined=res["opts_actual"]["keepUndefined"] if ku is None else ku)
+                res["deser_fn"] = {"ok": C.rename_inline(dump.dump_value(y2, ctx), ctx)}
+            except Exception as e:
+                res["deser_fn"] = {"err": C.err_name(e), "msg": str(e)[:200]}
             res["doc_unchanged"] = before == json.dumps(dump.dump_value(doc, ctx), sort_keys=True)
     finally:
         TypedPyDefaults.ignore_invalid_additional_properties_in_deserialization = old
